@@ -451,13 +451,13 @@ def r17_8(ctx):
 
 
 def run(ctx):
-    r17_8(ctx)
-    r17_1(ctx)
-    r17_2(ctx)
-    r17_4(ctx)
-    r17_5(ctx)
-    r17_6(ctx)
-    r17_7(ctx)
+    ctx.do(r17_8)
+    ctx.do(r17_1)
+    ctx.do(r17_2)
+    ctx.do(r17_4)
+    ctx.do(r17_5)
+    ctx.do(r17_6)
+    ctx.do(r17_7)
     from . import c05
-    c05.r5_5(ctx)
+    ctx.do(c05.r5_5)
     ctx.note("R17.3 validate-before-mutate for create/delete/rename is decided by C05 R5.5")
